@@ -1295,6 +1295,25 @@ func c03Corpus(t testing.TB, out *verifh.Out) {
 			{code: 9, t: c03Sid{9, 1, 0}},
 		})
 	}
+	// the same, but the peer scope refuses after system + transient were charged again:
+	// the connection stays charged to system + transient (found by the thorough tier)
+	{
+		c := c03BaseCfg()
+		c.lims[1].Conns = 1
+		c.lims[8].Conns = 0
+		c.allow = []c03Allow{{p: c03Prefix{w: [4]uint32{10<<24 | 1<<16 | 1<<8}, len: 24}, peer: 1}}
+		c.pre4 = []c03PreLim{{p: c03Prefix{w: [4]uint32{10<<24 | 1<<16 | 1<<8}, len: 24}, cap: 64}}
+		run("setpeer-recharged-then-refused-by-peer", c, []c03Op{
+			{code: 1, i: 0, inb: true, fd: true, ep: v4(2, 1)},
+			{code: 1, i: 1, inb: true, fd: true, ep: v4(1, 1)},
+			{code: 2, i: 1, q: 2}, // transfer refused by transient: charged nowhere
+			{code: 9, t: c03Sid{9, 0, 0}},
+			{code: 2, i: 1, q: 2}, // charged to system + transient again, refused by the peer scope
+			{code: 2, i: 1, q: 2}, // refused by the peer scope again
+			{code: 6, t: c03Sid{9, 1, 0}, sz: 10, prio: 255},
+			{code: 9, t: c03Sid{9, 1, 0}},
+		})
+	}
 	// refusal at each edge of a stream with protocol and service attached
 	for edge := 0; edge < 6; edge++ {
 		c := c03BaseCfg()
